@@ -263,6 +263,8 @@ Fixpoint exec (fuel : nat) (s : stmt) (st : state) {struct fuel} : outcome :=
                                  match n with
                                  | O => OutOfFuel
                                  | S n' =>
+                                     (* reading the counter creates it, like any read of a variable *)
+                                     let st := mk_state (touch (vars st) v) (screen st) in
                                      let cur := lookup (vars st) v in
                                      let neg := match step with
                                                 | None => Ok (of_bool false)
@@ -283,6 +285,7 @@ Fixpoint exec (fuel : nat) (s : stmt) (st : state) {struct fuel} : outcome :=
                                                  | Ok true =>
                                                      match block body st with
                                                      | Done st' =>
+                                                         let st' := mk_state (touch (vars st') v) (screen st') in
                                                          match binop Plus (lookup (vars st') v) step_v with
                                                          | Err x => Failed x p st'
                                                          | Ok nv => loop n' (mk_state (assign (vars st') v nv) (screen st'))
